@@ -602,5 +602,157 @@ Proof.
   repeat (proj; split_innermost);
     proj; intros Hnot; try reflexivity;
     eqb_subst; try (cbn; reflexivity); try (cbn; congruence);
-    norm_some; try discriminate; try congruence; try (exfalso; apply Hnot; cbn; tauto). Show.
+    norm_some; try discriminate; try congruence; try (exfalso; apply Hnot; cbn; tauto).
+Qed.
+
+Section GoodFootprints.
+Variable sc : scopes.
+Hypothesis Hlx : sc_lexer sc = LexerCloneInThreadLocal.
+Hypothesis Htr : sc_tracker sc = TrackerOnTokenLexerResetAtPos0.
+
+Ltac in_cases :=
+  cbn [In app lexer_locs tracker_locs token_writes token_reads lr_write_locs lr_read_locs];
+  intuition (subst; cbn [owned sink module_lexer_loc]; rewrite ?Nat.eqb_refl; auto).
+
+(* under the generated scopes a step writes only objects of its own thread, and sinks *)
+Lemma writes_owned t l σ x :
+  inv t l σ -> In x (writes sc t l σ) -> owned t x = true \/ sink x = true.
+Proof.
+  intros Hinv. unfold writes. rewrite (lexer_of_good sc Hlx). unfold inv, inv' in Hinv.
+  destruct (l_phase l) as [|s|s a|s|fuel e c].
+  - destruct (l_todo l); [contradiction|]. rewrite Hlx. destruct (s_slot σ t); [contradiction|]. in_cases.
+  - in_cases.
+  - in_cases.
+  - destruct Hinv as (Hd & Hc & Hz & Hp & _).
+    destruct (skipn _ _); [in_cases|]. destruct (lex_one _ _) as [[[k lexeme] r0]|]; [|in_cases].
+    unfold get_tref, tref_loc. rewrite Htr.
+    destruct (Nat.eqb (lx_pos (s_lexer σ (LxThread t))) 0) eqn:Hpos.
+    + destruct k; cbn [token_writes]; rewrite ?Hpos; in_cases.
+    + apply Nat.eqb_neq in Hpos. destruct Hp as (Hattr & Hlink); [lia|]. rewrite Hattr.
+      assert (Hpos' : Nat.eqb (lx_pos (s_lexer σ (LxThread t))) 0 = false) by (apply Nat.eqb_neq; exact Hpos).
+      destruct k; cbn [token_writes]; rewrite ?Hpos'; [|in_cases].
+      destruct (link_last _ _ _ _ Hlink) as [->|[i ->]]; in_cases.
+  - destruct fuel; [contradiction|]. destruct (lr_kind e c); in_cases.
+Qed.
+
+(* ... and reads only objects of its own thread, the module lexer (while cloning), and the sink
+   `parser.token` (copied into another sink) *)
+Lemma reads_owned t l σ x :
+  inv t l σ -> In x (reads sc t l σ) ->
+  owned t x = true \/ module_lexer_loc x = true \/ x = LParser AToken.
+Proof.
+  intros Hinv. unfold reads. rewrite (lexer_of_good sc Hlx). unfold inv, inv' in Hinv.
+  destruct (l_phase l) as [|s|s a|s|fuel e c].
+  - destruct (l_todo l); [contradiction|]. rewrite Hlx. destruct (s_slot σ t); in_cases.
+  - contradiction.
+  - contradiction.
+  - destruct Hinv as (Hd & Hc & Hz & Hp & _).
+    destruct (skipn _ _); [in_cases|]. destruct (lex_one _ _) as [[[k lexeme] r0]|]; [|in_cases].
+    unfold get_tref, tref_loc. rewrite Htr.
+    destruct (Nat.eqb (lx_pos (s_lexer σ (LxThread t))) 0) eqn:Hpos.
+    + destruct k; cbn [token_reads]; rewrite ?Hpos; in_cases.
+    + apply Nat.eqb_neq in Hpos. destruct Hp as (Hattr & Hlink); [lia|]. rewrite Hattr.
+      assert (Hpos' : Nat.eqb (lx_pos (s_lexer σ (LxThread t))) 0 = false) by (apply Nat.eqb_neq; exact Hpos).
+      destruct k; cbn [token_reads]; rewrite ?Hpos'; [|in_cases].
+      destruct (link_last _ _ _ _ Hlink) as [->|[i ->]]; in_cases.
+  - destruct fuel; [contradiction|]. destruct (lr_kind e c); in_cases.
+Qed.
+
+Lemma owned_unique t u x : owned t x = true -> owned u x = true -> t = u.
+Proof.
+  destruct x as [v|[|v] f| |[n|v c] f|v|a|g]; cbn [owned]; try discriminate;
+    intros H1 H2; apply Nat.eqb_eq in H1; apply Nat.eqb_eq in H2; congruence.
+Qed.
+Lemma owned_not_shared t x : owned t x = true -> module_lexer_loc x = false /\ sink x = false.
+Proof. destruct x as [v|[|v] f| |[n|v c] f|v|a|g]; cbn; try discriminate; auto. Qed.
+
+(* (1) footprints of steps of different threads meet only in sinks and in the module lexer, which
+   neither of them writes *)
+Theorem footprints_disjoint t u lt lu σ x :
+  t <> u -> inv t lt σ -> inv u lu σ ->
+  In x (reads sc t lt σ ++ writes sc t lt σ) -> In x (reads sc u lu σ ++ writes sc u lu σ) ->
+  sink x = true \/
+  (module_lexer_loc x = true /\ ~ In x (writes sc t lt σ) /\ ~ In x (writes sc u lu σ)).
+Proof.
+  intros Hne It Iu Ht Hu.
+  assert (Ct : owned t x = true \/ module_lexer_loc x = true \/ sink x = true).
+  { apply in_app_or in Ht. destruct Ht as [Ht|Ht].
+    - destruct (reads_owned _ _ _ _ It Ht) as [H|[H| ->]]; auto.
+    - destruct (writes_owned _ _ _ _ It Ht); auto. }
+  assert (Cu : owned u x = true \/ module_lexer_loc x = true \/ sink x = true).
+  { apply in_app_or in Hu. destruct Hu as [Hu|Hu].
+    - destruct (reads_owned _ _ _ _ Iu Hu) as [H|[H| ->]]; auto.
+    - destruct (writes_owned _ _ _ _ Iu Hu); auto. }
+  destruct Ct as [Ot|[Mt|St]]; [|right|left; exact St].
+  - destruct Cu as [Ou|[Mu|Su]]; [|right|left; exact Su].
+    + exfalso. apply Hne. apply (owned_unique _ _ _ Ot Ou).
+    + destruct (owned_not_shared _ _ Ot) as [H _]. congruence.
+  - split; [exact Mt|]. split; intros Hw.
+    + destruct (writes_owned _ _ _ _ It Hw) as [H|H].
+      * destruct (owned_not_shared _ _ H) as [H' _]. congruence.
+      * destruct x as [v|[|v] f| |r f|v|a|g]; cbn in *; discriminate.
+    + destruct (writes_owned _ _ _ _ Iu Hw) as [H|H].
+      * destruct (owned_not_shared _ _ H) as [H' _]. congruence.
+      * destruct x as [v|[|v] f| |r f|v|a|g]; cbn in *; discriminate.
+Qed.
+
+(* the tracker reference a clone inherits from the module lexer, and any tracker made by another
+   thread, is never dereferenced *)
+Theorem foreign_tracker_never_touched t l σ r f :
+  inv t l σ -> (forall c, r <> TrNew t c) ->
+  ~ In (LTracker r f) (reads sc t l σ ++ writes sc t l σ).
+Proof.
+  intros Hinv Hr Hin. apply in_app_or in Hin.
+  assert (H : owned t (LTracker r f) = true).
+  { destruct Hin as [Hin|Hin].
+    - destruct (reads_owned _ _ _ _ Hinv Hin) as [H|[H|H]]; [exact H|discriminate|discriminate].
+    - destruct (writes_owned _ _ _ _ Hinv Hin) as [H|H]; [exact H|discriminate]. }
+  destruct r as [n|v c]; cbn in H; [discriminate|]. apply Nat.eqb_eq in H. subst v. apply (Hr c). reflexivity.
+Qed.
+
+End GoodFootprints.
+
+(* ---------------------------------------------------------------- reachable worlds, schedules *)
+Lemma run_all_inv sc (Hlx : sc_lexer sc = LexerCloneInThreadLocal)
+      (Htr : sc_tracker sc = TrackerOnTokenLexerResetAtPos0) :
+  forall sched w, all_inv w -> all_inv (run_threads sc sched w).
+Proof.
+  induction sched as [|u sched IH]; intros w H; [exact H|].
+  cbn [run_threads]. apply IH. apply step_thread_all_inv; assumption.
+Qed.
+
+Lemma firstn_length_app {A} (a b : list A) : firstn (length a) (a ++ b) = a.
+Proof. induction a as [|x a IH]; cbn; [destruct b; reflexivity|]. f_equal. exact IH. Qed.
+
+(* a scheduled turn of a finished thread is a no-op, for any scopes *)
+Lemma finished_noop sc t l σ : finished l = true -> step sc t l σ = (l, σ).
+Proof.
+  unfold finished, step. destruct (l_phase l); try discriminate.
+  destruct (l_todo l); [reflexivity|discriminate].
+Qed.
+
+Lemma turns_app t a b : turns t (a ++ b) = turns t a + turns t b.
+Proof. induction a as [|x a IH]; cbn [app turns]; [reflexivity|]. rewrite IH. lia. Qed.
+Lemma turns_repeat t u k : turns t (repeat u k) = if Nat.eqb u t then k else 0.
+Proof.
+  induction k as [|k IH]; cbn [repeat turns]; [destruct (Nat.eqb u t); reflexivity|].
+  rewrite IH. destruct (Nat.eqb u t); lia.
+Qed.
+Lemma turns_sequential_notin t k : forall order, ~ In t order -> turns t (sequential order k) = 0.
+Proof.
+  induction order as [|u order IH]; intros Hn; [reflexivity|].
+  unfold sequential in *. cbn [flat_map]. rewrite turns_app, turns_repeat.
+  rewrite IH by (intros H; apply Hn; right; exact H).
+  destruct (Nat.eqb u t) eqn:E; [|lia]. apply Nat.eqb_eq in E. exfalso. apply Hn. left. exact E.
+Qed.
+Lemma turns_sequential t k : forall order, NoDup order -> In t order -> turns t (sequential order k) = k.
+Proof.
+  induction order as [|u order IH]; intros Hnd Hin; [contradiction|].
+  unfold sequential in *. cbn [flat_map]. rewrite turns_app, turns_repeat.
+  inversion Hnd as [|? ? Hnotin Hnd']; subst.
+  destruct Hin as [->|Hin].
+  - rewrite Nat.eqb_refl. fold (sequential order k). rewrite (turns_sequential_notin t k order Hnotin). lia.
+  - destruct (Nat.eqb u t) eqn:E.
+    + apply Nat.eqb_eq in E. subst u. contradiction.
+    + rewrite (IH Hnd' Hin). lia.
 Qed.
